@@ -10,7 +10,7 @@ EXPLANATION = (
     "later spawn requests raise PoolIsClosed; terminal: gather_and_close returned."
 )
 ASSUMPTIONS = ["bounds: <= 3 requests, sizes {1,2,inf}"]
-BUDGET = {"quick": 150, "thorough": 2400}
+BUDGET = {"quick": 150, "thorough": 900}
 MON = ["C08"]
 
 
